@@ -69,6 +69,14 @@ def main():
         sh('git -C %s checkout -- .' % REPO)
         sh('tools/restore_extracted.sh', cwd=V)      # the extracted Lean files must describe the clean tree again
     meta['ran'] = 'applied to /repo with `git -C /repo apply`, ran `./check <id> quick` for %s, then `git -C /repo checkout -- .`' % ', '.join(checks)
+    if sys.argv[2:] and isinstance(meta.get('check_results'), dict):
+        # a partial re-evaluation (e.g. after a check was strengthened): keep the earlier results of the other checks
+        prev = {c: r for c, r in meta['check_results'].items() if c in checks}
+        if prev:
+            meta.setdefault('earlier_results', {}).update({c: dict(exit=r.get('exit'), note='before the check was strengthened') for c, r in prev.items() if r.get('exit') != res[c]['exit']})
+        merged = dict(meta['check_results'])
+        merged.update(res)
+        res = merged
     meta['detected_by'] = [c for c, r in res.items() if r['exit'] == 1]
     meta['missed_by'] = [c for c, r in res.items() if r['exit'] == 0]
     meta['infra'] = [c for c, r in res.items() if r['exit'] not in (0, 1)]
